@@ -19,49 +19,55 @@ Record world := {
   w_broker : N;                  (* 0 = manual, 1 = automatic acknowledgements *)
   w_log : list text;             (* most recent first *)
   w_handles : list op;
-  w_waits : N                    (* time advances spent waiting inside the current operation *) }.
+  w_waits : N;                   (* time advances spent waiting inside the current operation *)
+  w_envok : bool                 (* ghost: every resumed CONNACK so far left room for the publishes carried over *) }.
 
 Definition upd_sess (w : world) (s : session) : world :=
   {| w_sess := s; w_conn := w_conn w; w_live := w_live w; w_event := w_event w; w_now := w_now w; w_inq := w_inq w;
      w_last_arrival := w_last_arrival w; w_txbuf := w_txbuf w; w_script := w_script w; w_broker := w_broker w;
-     w_log := w_log w; w_handles := w_handles w; w_waits := w_waits w |}.
+     w_log := w_log w; w_handles := w_handles w; w_waits := w_waits w; w_envok := w_envok w |}.
 Definition upd_live (w : world) (conn live : bool) (ev : N) : world :=
   {| w_sess := w_sess w; w_conn := conn; w_live := live; w_event := ev; w_now := w_now w; w_inq := w_inq w;
      w_last_arrival := w_last_arrival w; w_txbuf := w_txbuf w; w_script := w_script w; w_broker := w_broker w;
-     w_log := w_log w; w_handles := w_handles w; w_waits := w_waits w |}.
+     w_log := w_log w; w_handles := w_handles w; w_waits := w_waits w; w_envok := w_envok w |}.
 Definition upd_log (w : world) (l : text) : world :=
   {| w_sess := w_sess w; w_conn := w_conn w; w_live := w_live w; w_event := w_event w; w_now := w_now w; w_inq := w_inq w;
      w_last_arrival := w_last_arrival w; w_txbuf := w_txbuf w; w_script := w_script w; w_broker := w_broker w;
-     w_log := l :: w_log w; w_handles := w_handles w; w_waits := w_waits w |}.
+     w_log := l :: w_log w; w_handles := w_handles w; w_waits := w_waits w; w_envok := w_envok w |}.
 Definition upd_script (w : world) (sc : list (N * N)) : world :=
   {| w_sess := w_sess w; w_conn := w_conn w; w_live := w_live w; w_event := w_event w; w_now := w_now w; w_inq := w_inq w;
      w_last_arrival := w_last_arrival w; w_txbuf := w_txbuf w; w_script := sc; w_broker := w_broker w;
-     w_log := w_log w; w_handles := w_handles w; w_waits := w_waits w |}.
+     w_log := w_log w; w_handles := w_handles w; w_waits := w_waits w; w_envok := w_envok w |}.
 Definition upd_now (w : world) (t : N) : world :=
   {| w_sess := w_sess w; w_conn := w_conn w; w_live := w_live w; w_event := w_event w; w_now := t; w_inq := w_inq w;
      w_last_arrival := w_last_arrival w; w_txbuf := w_txbuf w; w_script := w_script w; w_broker := w_broker w;
-     w_log := w_log w; w_handles := w_handles w; w_waits := w_waits w |}.
+     w_log := w_log w; w_handles := w_handles w; w_waits := w_waits w; w_envok := w_envok w |}.
 Definition upd_inq (w : world) (q : list (N * bytes)) (last : N) : world :=
   {| w_sess := w_sess w; w_conn := w_conn w; w_live := w_live w; w_event := w_event w; w_now := w_now w; w_inq := q;
      w_last_arrival := last; w_txbuf := w_txbuf w; w_script := w_script w; w_broker := w_broker w;
-     w_log := w_log w; w_handles := w_handles w; w_waits := w_waits w |}.
+     w_log := w_log w; w_handles := w_handles w; w_waits := w_waits w; w_envok := w_envok w |}.
 Definition upd_txbuf (w : world) (b : bytes) : world :=
   {| w_sess := w_sess w; w_conn := w_conn w; w_live := w_live w; w_event := w_event w; w_now := w_now w; w_inq := w_inq w;
      w_last_arrival := w_last_arrival w; w_txbuf := b; w_script := w_script w; w_broker := w_broker w;
-     w_log := w_log w; w_handles := w_handles w; w_waits := w_waits w |}.
+     w_log := w_log w; w_handles := w_handles w; w_waits := w_waits w; w_envok := w_envok w |}.
 Definition upd_broker (w : world) (m : N) : world :=
   {| w_sess := w_sess w; w_conn := w_conn w; w_live := w_live w; w_event := w_event w; w_now := w_now w; w_inq := w_inq w;
      w_last_arrival := w_last_arrival w; w_txbuf := w_txbuf w; w_script := w_script w; w_broker := m;
-     w_log := w_log w; w_handles := w_handles w; w_waits := w_waits w |}.
+     w_log := w_log w; w_handles := w_handles w; w_waits := w_waits w; w_envok := w_envok w |}.
 Definition upd_handles (w : world) (h : list op) : world :=
   {| w_sess := w_sess w; w_conn := w_conn w; w_live := w_live w; w_event := w_event w; w_now := w_now w; w_inq := w_inq w;
      w_last_arrival := w_last_arrival w; w_txbuf := w_txbuf w; w_script := w_script w; w_broker := w_broker w;
-     w_log := w_log w; w_handles := h; w_waits := w_waits w |}.
+     w_log := w_log w; w_handles := h; w_waits := w_waits w; w_envok := w_envok w |}.
 
 Definition upd_waits (w : world) (n : N) : world :=
   {| w_sess := w_sess w; w_conn := w_conn w; w_live := w_live w; w_event := w_event w; w_now := w_now w; w_inq := w_inq w;
      w_last_arrival := w_last_arrival w; w_txbuf := w_txbuf w; w_script := w_script w; w_broker := w_broker w;
-     w_log := w_log w; w_handles := w_handles w; w_waits := n |}.
+     w_log := w_log w; w_handles := w_handles w; w_waits := n; w_envok := w_envok w |}.
+
+Definition upd_envok (w : world) (b : bool) : world :=
+  {| w_sess := w_sess w; w_conn := w_conn w; w_live := w_live w; w_event := w_event w; w_now := w_now w; w_inq := w_inq w;
+     w_last_arrival := w_last_arrival w; w_txbuf := w_txbuf w; w_script := w_script w; w_broker := w_broker w;
+     w_log := w_log w; w_handles := w_handles w; w_waits := w_waits w; w_envok := b |}.
 
 Definition MAX_WAITS : N := 64.        (* an operation that has waited this often is dropped by the application *)
 Definition STUTTER_MS : N := 100.      (* re-poll interval while the awaited deadline has already expired *)
@@ -551,7 +557,10 @@ Definition op_connect (fuel : nat) (w : world) : world * outcome N :=
             | Some (r', _, p) =>
                 let '(s6, cr) := connack_process (set_reader s5 r') p (w_now w5) in
                 match cr with
-                | CAOk resumed => (upd_sess w5 s6, ODone (if resumed then 1 else 0))
+                | CAOk resumed =>
+                    (* ghost: did the broker's window leave room for what is carried over? *)
+                    let ok := if resumed then unresolved_publishes (s_ob s6) <=? rt_maxquota (s_rt s6) else true in
+                    (upd_envok (upd_sess w5 s6) (w_envok w5 && ok), ODone (if resumed then 1 else 0))
                 | CAErr e true => (sess_hd (upd_sess w5 s6), OFail e)
                 | CAErr e false => (upd_sess w5 s6, OFail e)
                 end
